@@ -191,11 +191,12 @@ func unmarshalJSONObject(d decoder, r Rule) (Size, error) {
 	unit := (*string)(nil)
 keys:
 	for i := 0; true; i++ {
-		if i > MaxObjectKeys {
-			return 0, fmt.Errorf("%w: %d > %d", ErrObjectTooBig, i, MaxObjectKeys)
-		}
 		if !d.More() {
 			break keys
+		}
+		if MaxObjectKeys != 0 && i >= MaxObjectKeys {
+			// i keys were already read and another one follows
+			return 0, fmt.Errorf("%w: %d > %d", ErrObjectTooBig, i+1, MaxObjectKeys)
 		}
 		t, err := d.Token()
 		if err != nil {
